@@ -28,6 +28,7 @@ pub fn simple_put(size: u32, class: ContentClass, seed: u64, unack: bool) -> Put
         dst_name: "dst.bin".into(),
         requests: vec![],
         messages: vec![],
+        forget: false,
     }
 }
 
@@ -94,8 +95,8 @@ pub fn common_failures(sc: &Scenario, tr: &Trace) -> Option<Fail> {
         if let Some(id) = id {
             if *id != sc.put_id(k) {
                 return Some(Fail {
-                    key: "harness-put-id".into(),
-                    msg: format!("put {k} got id {id}, harness predicted {}", sc.put_id(k)),
+                    key: "put-id-out-of-sequence".into(),
+                    msg: format!("Put #{k} was answered with id {id}; counting the Puts of that entity gives {} (an id was reused or skipped)", sc.put_id(k)),
                 });
             }
         }
